@@ -18,9 +18,9 @@ def to_method_form(n, rng, names, p=0.5):
         def visit_Call(self, node):
             self.generic_visit(node)
             if isinstance(node.func, ast.Name) and node.func.id in names and node.args \
-                    and not node.keywords and rng.random() < p:
+                    and rng.random() < p:
                 return ast.Call(ast.Attribute(node.args[0], node.func.id, ast.Load()),
-                                node.args[1:], [])
+                                node.args[1:], node.keywords)
             return node
     return ast.fix_missing_locations(T().visit(copy.deepcopy(n)))
 
@@ -30,8 +30,6 @@ def check_one(t, src, data):
                                                  default_list_of_functions)
     names = list(default_list_of_functions)
     q = parse_expr(src)
-    if not spec.opcall_kwfree(q, names):
-        return
     has_method = not spec.no_method_op(q, names)
     lookalike = any(isinstance(x, ast.Call) and isinstance(x.func, ast.Attribute)
                     and x.func.attr not in names for x in ast.walk(q))
@@ -103,6 +101,12 @@ def sources(t):
         "ds.Select(lambda e: e.jets.Select(lambda j: j.tracks.Where(lambda t: t.pt > 0).Count()).Sum())",
         "ds.Select(lambda e: e.jets.Aggregate(0, lambda acc, j: acc + j.pt))",
         "ds.Select(lambda e: e.jets).Select(lambda js: js.Select(lambda j: j.pt).Min())",
+        # keyword arguments of method-form operator calls are arguments: kept (repaired defect:
+        # they were dropped, e.g. the filter of jets.Where(filter=...))
+        "ds.Select(lambda e: e.jets.Aggregate(0, func=lambda acc, j: acc + j.pt))",
+        "ds.Select(lambda e: e.jets.Where(filter=lambda j: j.pt > 1).Count())",
+        "ds.Select(f=lambda e: e.jets.Select(f=lambda j: j.tracks.Where(filter=lambda t: t.pt > 0).Count()))",
+        "ds.SelectMany(func=lambda e: e.jets).Where(filter=lambda j: j.pt > 0)",
     ]
     # lexical neighbours of the operator names used as ORDINARY method names (must be left alone)
     for k in names:
